@@ -35,6 +35,9 @@ pub fn setup_ops(users: &[String], rng: &mut Rng) -> Vec<Top> {
     ops.push(mk(far, 9005, Some(users[2].clone()), vec![], &users[0], None));
     ops.push(mk(far + 1, 9006, Some(users[0].clone()), vec![], &users[0], None));
     ops.push(mk(4, 9007, Some(users[0].clone()), vec![coin(100, "ua")], &users[0], None));
+    // an account whose balance of one denomination is all but the 128-bit maximum (nothing else uses that denomination)
+    ops.push(Top::Mint { to: users[2].clone(), coins: vec![coin(u128::MAX - 20, "uz")] });
+    ops.push(Top::Mint { to: users[0].clone(), coins: vec![coin(1000, "uz")] });
     ops
 }
 
@@ -44,6 +47,7 @@ pub struct HistoryOpts {
     pub sweep: bool,
     pub matrix: bool,
     pub api: ApiKind,
+    pub prestored: bool,
 }
 
 /// Everything observable of a finished history (C19): per-step records + final raw storage.
@@ -143,8 +147,9 @@ pub fn run_history(rng: &mut Rng, opts: &HistoryOpts, rep: &mut Report, prop: &s
 }
 
 pub fn run_history_t(rng: &mut Rng, opts: &HistoryOpts, rep: &mut Report, prop: &str, record: bool) -> (Case, Vec<Disc>, Option<Vec<String>>) {
-    let mut w = World::with_api(opts.api);
+    let mut w = World::with_setup(opts.api, opts.prestored);
     let api = opts.api;
+    let prestored = opts.prestored;
     if record {
         w.transcript = Some(vec![]);
     }
@@ -157,7 +162,7 @@ pub fn run_history_t(rng: &mut Rng, opts: &HistoryOpts, rep: &mut Report, prop: 
             account(i, &op, rep, prop);
         }
         if !d.is_empty() {
-            return (Case { ops, api }, d, finish_transcript(&mut w));
+            return (Case { ops, api, prestored }, d, finish_transcript(&mut w));
         }
     }
     let mut todo: Vec<Top> = vec![];
@@ -207,14 +212,14 @@ pub fn run_history_t(rng: &mut Rng, opts: &HistoryOpts, rep: &mut Report, prop: 
             account(i, &op, rep, prop);
         }
         if !d.is_empty() {
-            return (Case { ops, api }, d, finish_transcript(&mut w));
+            return (Case { ops, api, prestored }, d, finish_transcript(&mut w));
         }
     }
     // final quiescent-point checks
     let (d, _) = w.step(&Top::QueryBattery, rep);
     ops.push(Top::QueryBattery);
     let t = finish_transcript(&mut w);
-    (Case { ops, api }, d, t)
+    (Case { ops, api, prestored }, d, t)
 }
 
 pub fn run_case(case: &Case, rep: &mut Report, prop: &str) -> Vec<Disc> {
@@ -222,7 +227,7 @@ pub fn run_case(case: &Case, rep: &mut Report, prop: &str) -> Vec<Disc> {
 }
 
 pub fn run_case_t(case: &Case, rep: &mut Report, prop: &str, record: bool) -> (Vec<Disc>, Option<Vec<String>>) {
-    let mut w = World::with_api(case.api);
+    let mut w = World::for_case(case);
     if record {
         w.transcript = Some(vec![]);
     }
@@ -343,7 +348,7 @@ fn run_opaque(next_op: &mut dyn FnMut(&World) -> Option<Top>, rep: &mut Report) 
             for w in [&mut a, &mut b] {
                 if let Err(p) = catch(|| w.app.update_block(|bl| { bl.time = bl.time.plus_nanos(dt); bl.height += 1; })) {
                     discs.push(Disc { props: vec!["C14", "C01"], sig: "block-update-panics".into(), detail: p });
-                    return (Case { ops, api: ApiKind::Std }, discs);
+                    return (Case { ops, api: ApiKind::Std, prestored: false }, discs);
                 }
             }
             rep.bump("e1/opaque/block_updates");
@@ -358,7 +363,7 @@ fn run_opaque(next_op: &mut dyn FnMut(&World) -> Option<Top>, rep: &mut Report) 
             Ok(r) => r,
             Err(p) => {
                 discs.push(Disc { props: vec!["C01", "C14", "C17"], sig: "panic-in-transaction-with-module-messages".into(), detail: format!("{}: {}", short_op(&op), p) });
-                return (Case { ops, api: ApiKind::Std }, discs);
+                return (Case { ops, api: ApiKind::Std, prestored: false }, discs);
             }
         };
         rep.bump(&format!("e1/opaque/tx/{}", if ra.is_ok() { "ok" } else { "err" }));
@@ -378,7 +383,7 @@ fn run_opaque(next_op: &mut dyn FnMut(&World) -> Option<Top>, rep: &mut Report) 
                 if let Some(detail) = crate::engines::e1_chain::app_queries_vs_committed(&a.app, &before, rep) {
                     discs.push(Disc { props: vec!["C10"], sig: "app-query-observes-effects-of-failed-transaction-with-module-messages".into(), detail: format!("{}: {}", short_op(&op), detail) });
                 }
-                return (Case { ops, api: ApiKind::Std }, discs);
+                return (Case { ops, api: ApiKind::Std, prestored: false }, discs);
             }
         } else if after != before {
             rep.fingerprints.insert(fp_str(&format!("{:?}", trace.iter().map(|t| (t.entry.clone() as u8, t.tag % 1000)).collect::<Vec<_>>())));
@@ -416,30 +421,30 @@ fn run_opaque(next_op: &mut dyn FnMut(&World) -> Option<Top>, rep: &mut Report) 
                 let sb = crate::rawstate::dump(b.app.storage());
                 if !same || sa != sb {
                     discs.push(Disc { props: vec!["C01"], sig: "execute-multi-differs-from-the-same-messages-in-sequence".into(), detail: format!("{}: responses equal: {}, storage diff {:?}", short_op(&op), same, crate::rawstate::diff(&sa, &sb).iter().take(4).collect::<Vec<_>>()) });
-                    return (Case { ops, api: ApiKind::Std }, discs);
+                    return (Case { ops, api: ApiKind::Std, prestored: false }, discs);
                 }
             }
             (Err(_), Err(0)) => {}
             (Err(_), Err(_)) => {
                 // a later message failed: A rolled everything back, the one-by-one twin kept the earlier ones — out of step, stop here
                 rep.bump("e1/opaque/histories_ended_by_partial_sequence");
-                return (Case { ops, api: ApiKind::Std }, discs);
+                return (Case { ops, api: ApiKind::Std, prestored: false }, discs);
             }
             (Ok(_), Err(i)) => {
                 discs.push(Disc { props: vec!["C01"], sig: "execute-multi-succeeded-although-a-message-fails-alone".into(), detail: format!("{}: message #{} fails when executed in sequence", short_op(&op), i) });
-                return (Case { ops, api: ApiKind::Std }, discs);
+                return (Case { ops, api: ApiKind::Std, prestored: false }, discs);
             }
             (Err(e), Ok(_)) => {
                 discs.push(Disc { props: vec!["C01"], sig: "execute-multi-failed-although-every-message-succeeds-in-sequence".into(), detail: format!("{}: {}", short_op(&op), first_line(e)) });
-                return (Case { ops, api: ApiKind::Std }, discs);
+                return (Case { ops, api: ApiKind::Std, prestored: false }, discs);
             }
         }
         if !discs.is_empty() {
-            return (Case { ops, api: ApiKind::Std }, discs);
+            return (Case { ops, api: ApiKind::Std, prestored: false }, discs);
         }
     }
     // purity at the end
     let mut answers = vec![];
     discs.extend(a.query_battery(rep, &mut answers));
-    (Case { ops, api: ApiKind::Std }, discs)
+    (Case { ops, api: ApiKind::Std, prestored: false }, discs)
 }
